@@ -456,9 +456,9 @@ class AngularGrid(Grid):
         #   etc. \int Y_l1 Y_l2 = \delta_{l1, l2}
         # (not necessary for maxdet, already normalized to 4 pi / N)
         if method in ["maxdet", "ahrens_beylkin"]:
-            super().__init__(points, weights)
+            super().__init__(points.copy(), weights.copy())
         else:
-            super().__init__(points, weights * 4 * np.pi)
+            super().__init__(points.copy(), weights * 4 * np.pi)
 
         if method == "lebedev" and np.any(weights < 0.0):
             # Lebedev degrees 13, 25, 27 have negative weights. Symmetric spherical t-design
